@@ -421,6 +421,34 @@ def narrow_masks(f):
     return out, n
 
 
+def spurious_failures(f):
+    """Failure returns of f reachable from its entry without passing an edge on which some call has just reported failure
+    (`g(..) != 0`, `== NULL`, `== -1`, `< 0`); None if f has no failure return.  A function for which this list is empty fails only
+    when something it called failed."""
+    fails = [r for r in f.returns() if own.is_failure_return(r)]
+    if not fails:
+        return None
+    cut = set()
+    for b in f.blocks.values():
+        if b.cond is None or len(b.succs) != 2:
+            continue
+        for truth, si in ((True, 0), (False, 1)):
+            for op, L, R, Le, _ in cond_atoms_(b.cond, truth):
+                k = Le.strip() if Le is not None else None
+                if k is not None and k.cls == "CallExpr" and ((op == "!=" and R == ("c", 0)) or (op == "==" and R in (("c", 0), ("c", -1))) or (op == "<" and R == ("c", 0))):
+                    cut.add((b.id, si))
+    seen, work = set(), [f.entry]
+    while work:
+        nb = work.pop()
+        if nb in seen:
+            continue
+        seen.add(nb)
+        for si, sx in enumerate(f.blocks[nb].succs):
+            if sx is not None and (nb, si) not in cut:
+                work.append(sx)
+    return [r for r in fails if r.block.id in seen]
+
+
 def apply(rep, pid, files, tier):
     """Run the reference rules on the .c files among `files` that are library units."""
     from . import cdb as _cdb
@@ -428,6 +456,7 @@ def apply(rep, pid, files, tier):
     ref_ct = _load("ctors.json")
     ref_dt = _load("dtors.json")
     ref_pm = _load("params.json")
+    ref_fp = _load("failpaths.json")
     built = set(u for u, _ in cdb.makefile_rules())
     units = [p for p in files if p.endswith(".c") and p in built]      # files that are only #included by others are seen through those
     if not units:
@@ -464,6 +493,14 @@ def apply(rep, pid, files, tier):
                                 % name, function=f.name, construct="uninit:" + name)
                     if not bad:
                         rep.ok("UNINIT", "%s: every read of a local follows an assignment to it" % f.name, f.loc, "%d reads" % nreads)
+            # FAILPATH: a function that, on the reference tree, fails only when something it called failed still does
+            if key in (ref_fp.get(f.file) or []):
+                sp = spurious_failures(f)
+                if sp is not None:
+                    n += 1
+                    rep.check(not sp, "FAILPATH", "%s fails only when something it called failed" % f.name, (sp[0].where if sp else f.loc),
+                              "this failure return is reachable without any call having reported failure (on the reference tree every path to a failure return "
+                              "passes the failure edge of a call): the operation is refused although nothing went wrong", function=f.name, construct="spurious-failure")
             # MASKWIDTH (no reference needed)
             if f.file == up or f.file in files:
                 bad, nm_ = narrow_masks(f)
